@@ -54,6 +54,7 @@ type StreamOpts struct {
 	CtlDen     int  // a control frame is inserted with probability 1/CtlDen at each slot (default 4)
 	Reason     int  // -1 = draw; otherwise the close reason length
 	HasReason  bool
+	LongRuns   bool // one stream in 25 carries a run of 100-1500 tiny control frames at one slot (a long-lived connection's heartbeats)
 }
 
 func maskKey(r *gen.R) [4]byte {
@@ -147,9 +148,29 @@ func genStream(r *gen.R, o StreamOpts) *Stream {
 		st.Frames = append(st.Frames, f)
 		return len(st.Frames) - 1
 	}
+	longRun := 0
+	if o.LongRuns && o.Controls && r.Chance(1, 25) {
+		longRun = []int{100, 101, 150, 999, 1000, 1001, 1500}[r.Intn(7)]
+	}
 	ctl := func() {
 		if !o.Controls {
 			return
+		}
+		if longRun > 0 && r.Chance(1, 3) {
+			for k := 0; k < longRun; k++ {
+				op := 10
+				if k%16 == 7 {
+					op = 9
+				}
+				p := []byte{byte(k), byte(k >> 8)}[:k%3]
+				f := wire.Frame{Fin: true, Op: op, Masked: o.FromClient, Payload: p}
+				if o.FromClient {
+					f.Key = maskKey(r)
+				}
+				i := addFrame(f)
+				st.Events = append(st.Events, Ev{Kind: op, Data: p, First: i, Last: i})
+			}
+			longRun = 0
 		}
 		den := o.CtlDen
 		if den == 0 {
